@@ -750,3 +750,25 @@ pub fn twin_of(env: &Env, a: &Address) -> Address {
     }
 }
 
+
+/// Function names that occur in a contract's `contract.rs` but are not in `known`: candidates for
+/// entry points the workloads do not know (helpers among them are harmless: calling a name that
+/// is not exported just fails). The sources are read from the tree the harness was built against.
+pub fn unknown_entry_points(contract_dir: &str, known: &[&str]) -> Vec<String> {
+    let path = format!("{}/../../repo/contracts/{}/src/contract.rs", env!("CARGO_MANIFEST_DIR"), contract_dir);
+    let Ok(text) = std::fs::read_to_string(&path) else {
+        return Vec::new();
+    };
+    let mut out: Vec<String> = Vec::new();
+    let mut rest = text.as_str();
+    while let Some(i) = rest.find("fn ") {
+        let after = &rest[i + 3..];
+        let name: String = after.chars().take_while(|c| c.is_ascii_alphanumeric() || *c == '_').collect();
+        let boundary_ok = i == 0 || !rest.as_bytes()[i - 1].is_ascii_alphanumeric();
+        if boundary_ok && !name.is_empty() && after[name.len()..].starts_with('(') && !known.contains(&name.as_str()) && !out.contains(&name) {
+            out.push(name);
+        }
+        rest = &rest[i + 3..];
+    }
+    out
+}
